@@ -20,6 +20,7 @@ import Stab.Model.TxnScope
 import Stab.Model.ClaimProtocol
 import Stab.Model.Claims
 import Stab.Model.Engine
+import Stab.Model.SignalRace
 
 def dispatch (line : String) : String :=
   let line := line.trimAscii.toString
@@ -42,6 +43,7 @@ def dispatch (line : String) : String :=
   | "claim" => Stab.ClaimProtocol.drive rest
   | "claims" => Stab.Claims.drive rest
   | "engine" => Stab.Engine.drive rest
+  | "sigrace" => Stab.SignalRace.drive rest
   | _ => "bad-request"
 
 partial def loop (h : IO.FS.Stream) (out : IO.FS.Stream) : IO Unit := do
